@@ -150,6 +150,7 @@ func writeBaseline(cf *checkFlags, bl *Baseline, results []*FuncResult) int {
 			props[p] = true
 		}
 	}
+	rc := 0
 	for p := range props {
 		if cf.prop != "" && p != cf.prop {
 			continue
@@ -174,6 +175,26 @@ func writeBaseline(cf *checkFlags, bl *Baseline, results []*FuncResult) int {
 			d = mergeNames(bl.Discharged[p], d, o)
 			o = mergeNames(bl.Open[p], o, d)
 		}
+		// an obligation that was claimed (discharged in the old baseline) must never drift
+		// into the unclaimed list by a routine re-baseline: refuse unless forced
+		wasD := map[string]bool{}
+		for _, n := range bl.Discharged[p] {
+			wasD[n] = true
+		}
+		var lost []string
+		for _, n := range o {
+			if wasD[n] {
+				lost = append(lost, n)
+			}
+		}
+		if len(lost) > 0 && os.Getenv("GOCV_BASELINE_FORCE") == "" {
+			for _, n := range lost {
+				fmt.Printf("  REGRESSION: %s was discharged in the baseline and does not discharge now\n", n)
+			}
+			fmt.Printf("baseline %s NOT updated (set GOCV_BASELINE_FORCE=1 to drop these claims deliberately)\n", p)
+			rc = 1
+			continue
+		}
 		bl.Discharged[p] = d
 		bl.Open[p] = o
 		fmt.Printf("baseline %s: %d discharged, %d open\n", p, len(d), len(o))
@@ -187,7 +208,7 @@ func writeBaseline(cf *checkFlags, bl *Baseline, results []*FuncResult) int {
 		fmt.Fprintln(os.Stderr, err)
 		return 2
 	}
-	return 0
+	return rc
 }
 
 func mergeNames(old, add, remove []string) []string {
